@@ -4,7 +4,6 @@ import warnings
 from ..domain import BoundaryDomain, Domain
 from ..domain0D import Point
 from .union import UnionDomain
-from ....utils.user_fun import UserFunction
 from ...spaces import Points
 
 
@@ -171,45 +170,38 @@ class ProductDomain(Domain):
             b_points = self.domain_b.sample_random_uniform(n=n, params=new_params)
             if len(self.domain_b.necessary_variables) > 0:
                 # points need to be sampled in every call to this function
-                volume_a = self.domain_a.volume(
-                    b_points.join(new_params), device=device
-                )
-                reshape_volume = volume_a.reshape(N_APPROX_VOLUME, -1)
-                mean_volume = torch.sum(reshape_volume, dim=0) / N_APPROX_VOLUME
-                return mean_volume.reshape(-1, 1) * self.domain_b.volume(
-                    params, device=device
-                )
+                mean_volume = self._mean_volume_a(b_points.join(new_params), device)
+                return mean_volume * self.domain_b.volume(params, device=device)
             elif len(self.necessary_variables) > 0:
-                # we can keep the sampled points and evaluate domain_a in a function
+                # domain_a still needs the given parameters
                 b_volume = self.domain_b.volume(device=device)
 
                 def avg_volume(local_params):
                     _, new_params = self._repeat_params(
                         n=N_APPROX_VOLUME, params=local_params
                     )
-                    return (
-                        torch.sum(
-                            self.domain_a.volume(
-                                b_points.join(new_params), device=device
-                            ).reshape(N_APPROX_VOLUME, -1),
-                            dim=0,
-                        )
-                        / N_APPROX_VOLUME
-                        * b_volume
+                    mean_volume = self._mean_volume_a(
+                        b_points.join(new_params), device
                     )
+                    return mean_volume.reshape(-1) * b_volume
 
-                args = self.domain_a.necessary_variables - self.domain_b.space.variables
-                self._user_volume = UserFunction(avg_volume, args=args)
                 return avg_volume(params)
             else:
                 # we can compute the volume only once and save it
-                volume = sum(
-                    (self.domain_a.volume(b_points, device=device))
-                    / N_APPROX_VOLUME
-                    * self.domain_b.volume(device=device)
+                volume = self._mean_volume_a(b_points, device) * self.domain_b.volume(
+                    device=device
                 )
                 self.set_volume(volume)
                 return torch.repeat_interleave(volume, max(1, len(params)), dim=0)
+
+    def _mean_volume_a(self, points, device):
+        """Mean volume of domain_a over the N_APPROX_VOLUME sampled points."""
+        volume_a = self.domain_a.volume(points, device=device).reshape(-1, 1)
+        # a volume that does not depend on the points comes as a single value
+        volume_a = volume_a.expand(len(points), 1)
+        reshape_volume = volume_a.reshape(N_APPROX_VOLUME, -1)
+        mean_volume = torch.sum(reshape_volume, dim=0) / N_APPROX_VOLUME
+        return mean_volume.reshape(-1, 1)
 
     def sample_grid(self, n=None, d=None, params=Points.empty(), device="cpu"):
         raise NotImplementedError(
